@@ -21,6 +21,8 @@ open Discv5.Limiter Discv5.Filter
 structure LimiterSt where
   lim : Option (Limiter Nat) := none
   keys : List Nat := []
+  /-- number of keys with an entry (kept incrementally: `allows` touches the entry of its key only) -/
+  cnt : Nat := 0
   filt : Option Filter.Filter := none
   pb : PermitBan := PermitBan.empty
   ips : List Nat := []
@@ -84,8 +86,8 @@ def limiterStep (st : LimiterSt) (toks : List String) : LimiterSt × String :=
   match toks with
   | ["lnew", n, period] =>
     match (fromQuota (nat! n) (nat! period) : Option (Limiter Nat)) with
-    | none => ({ st with lim := none, keys := [] }, "err:quota")
-    | some l => ({ st with lim := some l, keys := [] }, s!"ok tau={l.tau} t={l.t}")
+    | none => ({ st with lim := none, keys := [], cnt := 0 }, "err:quota")
+    | some l => ({ st with lim := some l, keys := [], cnt := 0 }, s!"ok tau={l.tau} t={l.t}")
   | ["la", ns, key, tokens] =>
     match st.lim with
     | none => (st, "bad-op")
@@ -94,8 +96,9 @@ def limiterStep (st : LimiterSt) (toks : List String) : LimiterSt × String :=
       let (l1, v) := l.allows (nat! ns) key (nat! tokens)
       let keys := insSorted key st.keys
       let tat := match l1.tat key with | some x => toString x | none => "-"
-      ({ st with lim := some l1, keys := keys },
-       s!"{showVerdict v} tat={tat} n={(limEntries l1 keys).length}")
+      let cnt := st.cnt - (if (l.tat key).isSome then 1 else 0) + (if (l1.tat key).isSome then 1 else 0)
+      ({ st with lim := some l1, keys := keys, cnt := cnt },
+       s!"{showVerdict v} tat={tat} n={cnt}")
   | ["lp", ns] =>
     match st.lim with
     | none => (st, "bad-op")
@@ -103,7 +106,7 @@ def limiterStep (st : LimiterSt) (toks : List String) : LimiterSt × String :=
       let l1 := l.prune (nat! ns)
       let es := limEntries l1 st.keys
       let body := if es.isEmpty then "-" else ",".intercalate (es.map fun e => s!"{e.1}:{e.2}")
-      ({ st with lim := some l1 }, s!"n={es.length} {body}")
+      ({ st with lim := some l1, cnt := es.length }, s!"n={es.length} {body}")
   | ["lfnew", en, lim, maxn, maxb, ban] => newFilter st en lim maxn maxb ban
   | ["lrnew", en, lim, maxn, maxb, ban] => newFilter st en lim maxn maxb ban
   | ["lfpi", ip] =>
